@@ -7,7 +7,7 @@ func init() {
 		"Seeded search over interleavings of one sender per stream calling the real writeQuota.get, a loopy-role goroutine calling replenish in chunks, and stream termination (done closed); every atomic, channel operation and select is a scheduling point. Checked at every quiescent point: a sender inside get while quota > 0 or after done is a lost wake-up; quota always equals initial - granted + replenished and is back at the initial value when everything scheduled was written. Sampling, not proof.",
 		"Covers the writeQuota clause of C17 only (get/replenish/done, quota back to initial). The NewStream/stream-quota clause (streamsQuotaAvailable) needs a whole client transport against a scripted peer and is handled in the scripted-peer world. One sender per stream is assumed (gRPC forbids concurrent SendMsg on a stream; with two senders the one-slot channel can legitimately leave one waiting).",
 		"seeded schedule search over the real writeQuota with a byte ledger"))
-	regProp("C05", wti(60, "internal/transport.recvBuffer (put/compactBacklogLocked/load) and recvBufferReader (Read/ReadMessageHeader, server and client flavour; the client flavour with a real ClientStream.Close -> http2Client.closeStream on a minimal transport) in transport.go", "mem.Buffer reference counting (mem/buffers.go)").doc(
+	regProp("C05", wtiBig("internal/transport.recvBuffer (put/compactBacklogLocked/load) and recvBufferReader (Read/ReadMessageHeader, server and client flavour; the client flavour with a real ClientStream.Close -> http2Client.closeStream on a minimal transport) in transport.go", "mem.Buffer reference counting (mem/buffers.go)").doc(
 		"Seeded search over frame-size sequences (including bursts of more than 1024 sub-56-byte frames, with pooled 1-4 KiB frames mixed in, so that compaction runs and releases pooled buffers), interleavings of the producer's puts with an application reading via Read(n)/ReadMessageHeader of arbitrary sizes, error/EOF injection points (also from a second goroutine), context cancellation, and envconfig.EnableReceiveBufferCompaction on/off. Every payload byte is a function of (frame index, offset); the checker compares every delivered byte with the expected stream, brackets the reported error between the puts that completed before it and those that started after it, requires the error to be sticky with no data after it, flags a read still blocked at quiescence while data or an error is buffered, and uses a tracking, poisoning buffer pool (double free, leak after a complete read, recycled while owned). Sampling, not proof.",
 		"DATA payloads are built as framer.readDataFrame builds them (<= 1 KiB: heap slice, larger: pooled); zero-length payloads are not put because no transport puts them (both handleData paths guard dataLen > 0). Buffers still queued when a server-side reader abandons the stream on context cancellation are left to the GC by grpc-go and are only counted. The window-update side of transportReader is not part of this check.",
 		"seeded schedule and input search over the real recvBuffer/recvBufferReader with attributable payload bytes and a tracking buffer pool"))
@@ -15,6 +15,13 @@ func init() {
 		"Seeded search over interleavings of reader goroutines (throttle() then put of the control items a transport reader produces), application-side producers (stream-creation requests via executeAndPut, DATA with pooled buffers, window updates, clean-ups), one consumer in the role of loopy (blocking and non-blocking get, stalls) and finish()/done at a random point, for throttle limits 1..8 (maxQueuedControlBufferItems is a package variable in this tree and is set per run). At every quiescent point the real item list is walked: a goroutine inside throttle() with fewer than limit non-HEADERS/DATA items queued, or after finish()/done, is a lost wake-up; after finish() every put is refused with ErrConnClosing without running its callback, every accepted but unconsumed stream-creation request had onOrphaned(ErrConnClosing) exactly once, every DATA buffer went back to the pool exactly once, nothing stays queued. Sampling, not proof.",
 		"Which items count towards the limit is the checker's own table taken from the doc comment of maxQueuedControlBufferItems (everything other than HEADERS and DATA), not from isThrottled(). The converse (throttle() must block at the limit) is not part of the statement and only a probe. The end-to-end rider (peer floods PING/SETTINGS/RST while the writer is stalled) belongs to the scripted-peer world.",
 		"seeded schedule search over the real controlBuffer with list-walking quiescence oracles and a tracking buffer pool"))
+}
+
+// wtiBig: C05 runs cost 1-10 ms (thousands of frames, megabytes of payload).
+func wtiBig(real ...string) *Prop {
+	p := wti(60, real...)
+	p.QuickRuns, p.ThoroughRuns, p.RunTimeoutS = 40000, 1500000, 60
+	return p
 }
 
 func wti(batch int, real ...string) *Prop {
